@@ -17,14 +17,14 @@ const modPath = "github.com/awalterschulze/goderive"
 
 // Repo is the type-checked generator source (main, derive, plugin/*), never vendor/test/example.
 type Repo struct {
-	Dir     string
-	Fset    *token.FileSet
-	Pkgs    []*packages.Package
+	Dir  string
+	Fset *token.FileSet
+	Pkgs []*packages.Package
 	// Normalised: this is the helper-inlined view (normalise.go); positions refer to the inlined text
 	Normalised bool
-	ByName  map[string]*packages.Package // package name -> package ("main", "derive", "equal", ...)
-	Decls   map[*types.Func]*FuncInfo
-	Plugins []string // plugin package names, sorted
+	ByName     map[string]*packages.Package // package name -> package ("main", "derive", "equal", ...)
+	Decls      map[*types.Func]*FuncInfo
+	Plugins    []string // plugin package names, sorted
 }
 
 type FuncInfo struct {
